@@ -1,5 +1,6 @@
 (* driver for m_dataclass
-   dec cy|py <opts: 8 x 0/1 init repr eq order unsafe_hash frozen match_args kw_only>
+   dec cy0|cy1|py <opts   (cy0 = the code as it is, cy1 = repaired hash-is-None test)
+             <opts: 8 x 0/1 init repr eq order unsafe_hash frozen match_args kw_only>
              <user: init repr eq hash(0 missing,1 None,2 def) match_args post_init>
              <fields: name:d:i:r:c:h:k:v separated by commas, or ->   d in n/v/f, h k in n/t/f
    ord <lt|le|gt|ge> <pairs x:y,...>   values: integer or N (None)       -> cy py   (T/F/E each)
@@ -46,7 +47,8 @@ let s_ob = function None -> "E" | Some true -> "T" | Some false -> "F"
 let handle = function
   | ["dec"; who; o; u; fs] ->
       let fl = List.map parse_field (split_on ',' fs) in
-      let f = if who = "cy" then cy_decide else py_decide in
+      let f = if who = "cy0" then cy_decide false else if who = "cy1" then cy_decide true
+              else if who = "py" then py_decide else failwith "who" in
       s_dec (f (parse_opts o) (parse_user u) fl)
   | ["ord"; c; ps] ->
       let l = pairs oz ps in
